@@ -49,5 +49,5 @@ package tokenizers
 //@   devirt tokenizers.ITokenizerState = *MustacheSpecialState
 //@   requires c != nil && c.AbstractTokenizer != nil && absOf(c) == c.AbstractTokenizer && absOf(c.AbstractTokenizer) == c.AbstractTokenizer
 //@   requires tokInv(c.AbstractTokenizer) && typeof(c.specialState) == typeid("*MustacheSpecialState") && c.specialState.(*MustacheSpecialState) != nil
-//@   assigns c.special, c.lastReader, c.tagStart, c.comment, c.AbstractTokenizer.LastTokenType, sc(c.AbstractTokenizer.Scanner).position, sc(c.AbstractTokenizer.Scanner).line, sc(c.AbstractTokenizer.Scanner).column
+//@   assigns c.special, c.lastVersion, c.tagStart, c.comment, c.AbstractTokenizer.LastTokenType, sc(c.AbstractTokenizer.Scanner).position, sc(c.AbstractTokenizer.Scanner).line, sc(c.AbstractTokenizer.Scanner).column
 //@   nopanic
